@@ -1,4 +1,30 @@
-(* Properties_C05.v — placeholder until SdlProofs.v lands; see DESIGN.md 4 C05. *)
-From PD Require Import Base SdlModel SdlObs.
-Theorem C05_placeholder : True. Proof. exact I. Qed.
-Print Assumptions C05_placeholder.
+(* Properties_C05.v — C05: output and checkpoints do not depend on worker timing.
+   The SDL model's next() takes the arrival SCHEDULE as an argument; the theorems quantify over it. Proofs: SdlMapProofs.v. *)
+From PD Require Import Base SdlModel SdlObs SdlMapProofs.
+Open Scope list_scope. Open Scope nat_scope.
+
+(* map-style: any two arrival schedules give the same epoch *)
+Theorem C05_map_schedule_independent : forall c, c_kind c = KMap -> 0 < c_W c -> 0 < c_P c -> c_I c <= 1 \/ c_bad c = [] ->
+  forall sched sched', outcomes c (S (LL c)) (sdl_fresh c) sched = outcomes c (S (LL c)) (sdl_fresh c) sched'.
+Proof. intros c Hk HW HP Hg s1 s2. rewrite (map_epoch_exact c Hk HW HP Hg s1), (map_epoch_exact c Hk HW HP Hg s2). reflexivity. Qed.
+Print Assumptions C05_map_schedule_independent.
+
+(* map-style: the continuation from a checkpoint taken after k batches does not depend on the schedule the checkpoint was
+   taken under, nor on the schedule it is resumed under — for every k and every pair of schedule pairs *)
+Theorem C05_map_checkpoint_schedule_independent : forall c, c_kind c = KMap -> 0 < c_W c -> 0 < c_P c -> c_bad c = [] ->
+  forall k a1 a2 b1 b2, k <= LL c ->
+  (let '(sk, _) := replay c k (sdl_fresh c) a1 in let '(sr, sc) := sdl_resume c (state_dict sk) a2 in outcomes c (S (LL c - k)) sr sc) =
+  (let '(sk, _) := replay c k (sdl_fresh c) b1 in let '(sr, sc) := sdl_resume c (state_dict sk) b2 in outcomes c (S (LL c - k)) sr sc).
+Proof.
+  intros c Hk HW HP Hb k a1 a2 b1 b2 Hle.
+  pose proof (map_resume_exact c Hk HW HP Hb k a1 a2 Hle) as Ea. pose proof (map_resume_exact c Hk HW HP Hb k b1 b2 Hle) as Eb.
+  destruct (replay c k (sdl_fresh c) a1) as [ska ?]. destruct (sdl_resume c (state_dict ska) a2) as [sra sca].
+  destruct (replay c k (sdl_fresh c) b1) as [skb ?]. destruct (sdl_resume c (state_dict skb) b2) as [srb scb].
+  rewrite Ea, Eb. reflexivity.
+Qed.
+Print Assumptions C05_map_checkpoint_schedule_independent.
+
+(* iterable datasets: target statement (checked by adversarial-schedule correspondence on every run) *)
+Definition C05_iter_statement : Prop :=
+  forall c, c_kind c = KIter -> 0 < c_W c -> 0 < c_P c -> length (c_shards c) = c_W c -> c_bad c = [] ->
+  forall sched sched', outcomes c (S (length (reference c))) (sdl_fresh c) sched = outcomes c (S (length (reference c))) (sdl_fresh c) sched'.
